@@ -90,3 +90,7 @@ pub fn fast_load_tap<H: Host>(emulator: &mut Emulator<H>) -> Result<()> {
     emulator.cpu.regs.set_flags(f);
     Ok(())
 }
+
+#[cfg(kani)]
+#[path = "/verif/hooks/core/fastload.rs"]
+mod verif_hooks;
